@@ -214,3 +214,24 @@ Proof.
   rewrite E1, wrap64_small by lia. cbn [andb].
   destruct ((startNo + 1) * fetch <? e) eqn:E2; lia.
 Qed.
+
+(** * What SyncCFTBlocks emits with honest peers: every height of [b..e] exactly once, ascending *)
+Lemma nseq_app x n m : nseq x (n + m) = nseq x n ++ nseq (x + N.of_nat n) m.
+Proof.
+  revert x. induction n as [|n IH]; intro x; cbn [nseq Nat.add app].
+  - cbn [N.of_nat]. rewrite N.add_0_r. reflexivity.
+  - rewrite IH. f_equal. f_equal. f_equal. rewrite Nat2N.inj_succ. lia.
+Qed.
+
+Theorem sync_emit_interval rs : forall b e, chain b e rs -> sync_emit rs = nseq b (N.to_nat (e + 1 - b)).
+Proof.
+  induction rs as [|[x y] t IH]; intros b e Hc; cbn [chain] in Hc.
+  - subst b. replace (e + 1 - (e + 1)) with 0 by lia. reflexivity.
+  - destruct Hc as [Hx [Hby [Hye Ht]]]. subst x. unfold sync_emit in *. cbn [flat_map]. rewrite (IH _ _ Ht).
+    unfold expand. cbn [fst snd].
+    replace (N.to_nat (e + 1 - b)) with (N.to_nat (y + 1 - b) + N.to_nat (e + 1 - (y + 1)))%nat by lia.
+    rewrite nseq_app. do 2 f_equal. lia.
+Qed.
+
+Lemma covers_once_b_spec b e l : covers_once_b b e l = true <-> covers_once b e l.
+Proof. unfold covers_once_b, covers_once. apply list_eqb_spec. intros x y. apply N.eqb_eq. Qed.
